@@ -63,7 +63,10 @@ func DrawSpecConfig(r *Rng, genNames []string, base string) SpecConfig {
 
 var modPaths = []string{"example.com/m", "m", "github.com/a-b/c.d/v2", "example.com/deep/mod-x"}
 var goVers = []string{"1.18", "1.21", "1.22.0", "1.23", "1.24", "1.24.2"}
-var dirNames = []string{"a", "b", "c", "d", "api", "core", "v1"}
+
+// directories; two pairs share their last path segment (x/model, y/model and a list next to
+// container/list) so that import names have to be disambiguated
+var dirNames = []string{"a", "b", "c", "d", "api", "core", "v1", "x/model", "y/model", "list"}
 var typeNames = []string{"Alpha", "Beta", "Gamma", "Delta", "Item", "ItemList", "Node", "Opt", "T", "U", "V", "K", "lower", "Spec"}
 var docWords = []string{"is a thing.", "holds data", "does work; see below.", "represents state"}
 
@@ -190,13 +193,14 @@ func DrawModule(r *Rng, cfg SpecConfig) *ModuleSpec {
 }
 
 func importAllowed(fromDir, toDir string) bool {
-	i := strings.Index("/"+toDir+"/", "/internal/")
+	// every "internal" element restricts importers to the tree rooted at its parent; the last one is the strictest
+	t := "/" + toDir + "/"
+	i := strings.LastIndex(t, "/internal/")
 	if i < 0 {
 		return true
 	}
-	parent := strings.TrimSuffix(("/" + toDir + "/")[:i], "/")
-	parent = strings.TrimPrefix(parent, "/")
-	return fromDir == parent || strings.HasPrefix(fromDir, parent+"/") || parent == ""
+	parent := strings.Trim(t[:i], "/")
+	return parent == "" || fromDir == parent || strings.HasPrefix(fromDir, parent+"/")
 }
 
 func drawDecls(r *Rng, cfg SpecConfig, p *PkgSpec, pi int) {
@@ -384,6 +388,11 @@ func drawPre(r *Rng, cfg SpecConfig, m *ModuleSpec) {
 		}
 		if r.P(0.2) {
 			add(j(".hidden"), "dot file\n")
+		}
+		if r.P(0.3) {
+			// what a killed earlier run may have left behind: a long, stale temporary output
+			g := Pick(r, cfg.GenNames)
+			add(j(base+"."+g+".go.tmp"), "package "+p.Name+"\n\n// stale temporary output of a run that died\n"+strings.Repeat("var StaleTmp = `"+strings.Repeat("x", 60)+"`\n", 120))
 		}
 	}
 	if r.P(0.3) {
